@@ -1,6 +1,8 @@
 (* Executable model of the send path of AsyncTLSStreamTransport under concurrent senders.  No proofs here.
 
      send_all(data): self._data_deque.append(data); await self.__flush_data_to_send()
+     send_all_from_iterable(chunks): self._data_deque.extend(chunks); await self.__flush_data_to_send()
+                                     (ALL the chunks of the packet enter the backlog before the first await)
      __flush_data_to_send -> _retry_ssl_method(__write_all_to_ssl_object, ssl_object, deque):
          result = method(args)             SYNCHRONOUS: the whole backlog is written to the SSL object, whose ciphertext
                                            records accumulate in the write BIO (wbio), in the order of the writes
@@ -12,7 +14,7 @@
    records.  A record is represented by its plaintext.  (SSLWantRead/Write and SSL errors during a write belong to
    C08/C09; after the handshake a write completes.)
 
-   Task program = list of plaintexts sent one after the other.
+   Task program = list of packets sent one after the other; a packet is the list of its chunks (one chunk: send_all).
    Labels:  TStart t   task t starts
             TResume t  t, parked on the send lock, is handed the lock
             TWrite t   the underlying transport.send_all of t returns
@@ -23,10 +25,10 @@ From EN Require Import Lib.Bytes Conc.FairLock.
 Import ListNotations.
 
 Inductive xstate :=
-| XNew (prog : list bytes)
+| XNew (prog : list (list bytes))
 | XRun
-| XWait (rest : list bytes)        (* wrote to the SSL object, waits for the transport send lock *)
-| XFlush (rest : list bytes)       (* holds the lock, suspended in transport.send_all *)
+| XWait (rest : list (list bytes)) (* wrote to the SSL object, waits for the transport send lock *)
+| XFlush (rest : list (list bytes)) (* holds the lock, suspended in transport.send_all *)
 | XDone (code : Z).
 
 Record tls := mkTls {
@@ -38,7 +40,7 @@ Record tls := mkTls {
   x_crashed : bool
 }.
 
-Definition tls_init (progs : list (list bytes)) : tls := mkTls fl_init [] [] (map XNew progs) [] false.
+Definition tls_init (progs : list (list (list bytes))) : tls := mkTls fl_init [] [] (map XNew progs) [] false.
 
 Fixpoint updx {X} (n : nat) (x : X) (l : list X) : list X :=
   match l, n with
@@ -62,6 +64,9 @@ Definition x_unlock (t : tid) (s : tls) : tls :=
 Definition ssl_write (d : bytes) (s : tls) : tls :=
   mkTls (x_lock s) (x_wbio s ++ [d]) (x_calls s) (x_tasks s) (d :: x_writes s) (x_crashed s).
 
+(* the whole backlog of one packet, chunk after chunk, synchronously *)
+Definition ssl_write_all (p : list bytes) (s : tls) : tls := fold_left (fun s d => ssl_write d s) p s.
+
 (* lock held by t: `if self._write_bio.pending: await transport.send_all(self._write_bio.read())`.
    Returns the state and whether t is now suspended in the transport. *)
 Definition flush (s : tls) : tls * bool :=
@@ -71,15 +76,15 @@ Definition flush (s : tls) : tls * bool :=
   end.
 
 (* t holds the lock; k = the rest of its program once this send_all returned *)
-Definition after_lock (t : tid) (rest : list bytes) (k : tls -> tls) (s : tls) : tls :=
+Definition after_lock (t : tid) (rest : list (list bytes)) (k : tls -> tls) (s : tls) : tls :=
   let '(s1, susp) := flush s in
   if susp then x_set t (XFlush rest) s1 else k (x_unlock t s1).
 
-Fixpoint x_run_task (t : tid) (prog : list bytes) (s : tls) {struct prog} : tls :=
+Fixpoint x_run_task (t : tid) (prog : list (list bytes)) (s : tls) {struct prog} : tls :=
   match prog with
   | [] => x_set t (XDone 10) s
   | d :: rest =>
-      let s1 := ssl_write d s in
+      let s1 := ssl_write_all d s in
       let '(l, got) := fl_acquire t (x_lock s1) in
       if got then after_lock t rest (x_run_task t rest) (x_with_lock l s1)
       else x_set t (XWait rest) (x_with_lock l s1)
